@@ -10,7 +10,6 @@ from harness.extract import health as x_health
 from harness.rigs import health as rig
 from harness.rigs import health_game as grig
 
-MANIFEST_DISABLED = "being adapted to C15's add_file/copy_file fix fd6fe16"
 MANIFEST = {
     "text": "Lean 4 proof over an executable model of one node's health bookkeeping (software actual/visible/fix countdown, "
             "service/application lifecycle guards, files, folders with scan/restore countdowns, whole-node scan, node power FSM), "
